@@ -292,6 +292,15 @@ impl<T> Param for T where
 {
 }
 
+/// A type-level function: `<Enc as Encoding<T>>::Wire` mentions `T` only as the trait argument of a qualified path.
+pub trait Encoding<T> {
+    type Wire;
+}
+pub struct Enc;
+impl<T> Encoding<T> for Enc {
+    type Wire = Vec<T>;
+}
+
 /// A bound that relates two type parameters and is satisfied by every pair of types.
 pub trait Rel<X: ?Sized> {}
 impl<A: ?Sized, X: ?Sized> Rel<X> for A {}
